@@ -342,7 +342,7 @@ def unhexlify(s, ctx):
     return Seq('bytes', out)
 
 
-def decode_ascii_or_utf8(s, ctx):
+def decode_ascii_or_utf8(s, ctx, ascii_only=False):
     """bytes.decode() (UTF-8).  ASCII bytes decode to themselves; Utf8 segments decode to their source;
     anything else: either UnicodeDecodeError or an opaque string (over-approximation, exact enough for
     exception analysis; value-level obligations need the well-formedness precondition)"""
@@ -361,6 +361,8 @@ def decode_ascii_or_utf8(s, ctx):
             out.append(("opaque", g))
     segs = []
     for kind, g in out:
+        if ascii_only and kind in ("src", "opaque"):
+            raise _U()("ascii decode of bytes that are not given element by element")
         if kind == "src":
             segs.append(g)
         elif kind == "same":
@@ -378,7 +380,7 @@ def decode_ascii_or_utf8(s, ctx):
             if ctx.branch(allascii):
                 segs.append(g)
             else:
-                k = ctx.fork(2)
+                k = 0 if ascii_only else ctx.fork(2)     # the ascii codec refuses every byte >= 0x80
                 if k == 0:
                     _raise("UnicodeDecodeError")
                 n = len(g.terms)
